@@ -224,3 +224,71 @@ Theorem lazy_edge_stmt_eval_debug_attr : forall t fl call fuel src snk ea dbg s 
     length (l_graph s') = length (l_graph s2) /\
     (forall i, i <> a -> gnode_at (l_graph s') i = gnode_at (l_graph s2) i).
 Proof. exact lazy_edge_stmt_eval_lemma. Qed.
+
+(* composition with loaded_node_text (Props/C20disp.v): for a file produced by the LOADER, the text a `node` statement
+   writes into the variable-name attribute is the Display text of its variable.  PARTIAL: stated for the strict
+   interpreter and an unscoped variable (the other three combinations follow in the same way from the _any_variable
+   equations above); the statement must occur in the loaded file (file_stmts, any depth). *)
+From TSG Require Model.Parser Model.Loader Proofs.LoadedFile.
+From TSG Require Import Model.AstDisplay.
+Theorem loaded_node_stmt_records_variable_text_partial : forall {rx} X q lfuel text fl pats,
+  Loader.load X q lfuel text = Loader.LdOk fl pats ->
+  forall name vl vtext l, In (SNode (VarU name vl) vtext l) (file_stmts fl) ->
+  forall t cfg glob (regexes : list rx) find call fuel le s p l',
+  cfg_distinct cfg -> match_available cfg (le_match le) (le_full le) ->
+  snd (poll_step L_exec_stmt p) = false ->
+  globals_get glob name = None ->
+  varmap_add (s_locals s) name (VGraph (N.of_nat (length (s_graph s)))) false = inl l' ->
+  exec_stmt t fl cfg glob regexes find call (S fuel) le (SNode (VarU name vl) vtext l) s p =
+  Ok (tt, {| s_graph := s_graph s ++ [ {| g_attrs := node_dbg_attrs cfg (display_variable (dpenv_of (Parser.x_print X)) (VarU name vl)) vl
+                                                        (first_full_match (le_match le) (le_full le)); g_edges := [] |} ];
+             s_locals := l'; s_scoped := s_scoped s; s_params := s_params s |},
+      fst (poll_step L_exec_stmt p)).
+Proof.
+  intros rx X q lfuel text fl pats Hload name vl vtext l Hin t cfg glob regexes find call fuel le s p l' Hd Hm Hp Hg Hv.
+  rewrite <- (LoadedFile.loaded_node_text_lemma X q lfuel text fl pats Hload _ _ _ Hin).
+  exact (strict_node_stmt_debug_attrs t fl cfg glob regexes find call fuel le name vl vtext l s p l' Hd Hm Hp Hg Hv).
+Qed.
+
+(* non-vacuity of the statement-level theorems: all three attributes configured; `node x` (x at line 2 column 3, match
+   node 7) on the empty graph, and `edge x -> y` at (3, 0) between two existing nodes: a new edge gets the location, the
+   same statement again leaves it alone *)
+Definition c15_cfg : config := {| c_loc_attr := Some [108]; c_var_attr := Some [118]; c_match_attr := Some [109] |}.
+Definition c15_fl : file := {| f_globals := []; f_inherited := []; f_shorthands := []; f_stanzas := [] |}.
+Definition c15_t : tree := {| t_src := []; t_nodes := [] |}.
+Definition c15_le : lenv := {| le_match := [(0, [7; 8])]; le_full := 0; le_caps := []; le_ctx := {| sc_stmt := (0, 0); sc_stanza := (0, 0); sc_node := 7 |} |}.
+Definition c15_s2 (es : edges) : sstate :=
+  {| s_graph := [ {| g_attrs := []; g_edges := es |}; new_gnode ];
+     s_locals := [[([120], (VGraph 0, false)); ([121], (VGraph 1, false))]]; s_scoped := []; s_params := [] |}.
+Lemma c15_cfg_distinct : cfg_distinct c15_cfg.
+Proof. repeat split; intros a b Ha Hb; inversion Ha; inversion Hb; subst; discriminate. Qed.
+Example c15_stmt_nonvacuous :
+  exec_stmt c15_t c15_fl c15_cfg [] (@nil unit) (fun _ _ => None) (stdlib_call (fun _ _ _ => None) c15_t) 2 c15_le
+    (SNode (VarU [120] (1, 2)) [120] (1, 0)) (sinit []) (polls0 None) =
+  Ok (tt, {| s_graph := [ {| g_attrs := [([118], VStr [120]); ([108], VStr (loc_text (1, 2))); ([109], VSyn 7)]; g_edges := [] |} ];
+             s_locals := [[([120], (VGraph 0, false))]]; s_scoped := []; s_params := [] |}, fst (poll_step L_exec_stmt (polls0 None))) /\
+  (forall es, es = [] \/ es = [(1, [([107], VInt 5)])] ->
+   exists s' nd', exec_stmt c15_t c15_fl c15_cfg [] (@nil unit) (fun _ _ => None) (stdlib_call (fun _ _ _ => None) c15_t) 2 c15_le
+      (SEdge (EUnscoped [120] (3, 0)) (EUnscoped [121] (3, 5)) (3, 0)) (c15_s2 es) (polls0 None) = Ok (tt, s', fst (poll_step L_exec_stmt (polls0 None))) /\
+      gnode_at (s_graph s') 0 = Some nd' /\
+      edges_get 1 (g_edges nd') = Some (match es with [] => [([108], VStr (loc_text (3, 0)))] | _ => [([107], VInt 5)] end)).
+Proof.
+  split.
+  - apply (strict_node_stmt_debug_attrs c15_t c15_fl c15_cfg [] (@nil unit) (fun _ _ => None) (stdlib_call (fun _ _ _ => None) c15_t) 1 c15_le
+             [120] (1, 2) [120] (1, 0) (sinit []) (polls0 None) [[([120], (VGraph 0, false))]] c15_cfg_distinct).
+    + right. discriminate.
+    + reflexivity.
+    + reflexivity.
+    + reflexivity.
+  - intros es Hes.
+    destruct (strict_edge_stmt_debug_attr c15_t c15_fl c15_cfg [] (@nil unit) (fun _ _ => None) (stdlib_call (fun _ _ _ => None) c15_t) 1 c15_le
+                (EUnscoped [120] (3, 0)) (EUnscoped [121] (3, 5)) (3, 0) (c15_s2 es) (polls0 None) 0 1
+                (c15_s2 es) (fst (poll_step L_exec_stmt (polls0 None))) (c15_s2 es) (fst (poll_step L_exec_stmt (polls0 None)))
+                {| g_attrs := []; g_edges := es |}) as (s' & nd' & E & Hn & _ & He & _).
+    + reflexivity.
+    + reflexivity.
+    + reflexivity.
+    + reflexivity.
+    + destruct Hes as [->| ->]; repeat constructor.
+    + exists s', nd'. split; [exact E|]. split; [exact Hn|]. rewrite He. destruct Hes as [->| ->]; reflexivity.
+Qed.
